@@ -10,6 +10,7 @@
 -/
 import ASV.Proofs.Refines
 import ASV.Proofs.SpecClasses
+import ASV.Proofs.SpecAddGroups
 namespace ASV.C05
 open ASV ASV.CC ASV.CC.Spec
 
@@ -509,13 +510,36 @@ example :
     (bigClasses us).map (fun c => (c.foldl (fun acc u => Spec.union acc u.members) []).map (·.id)) = [[0, 1, 3, 2]] := by
   decide +kernel
 
+/-- The table step of the executable reference (`Spec.addGroups`) satisfies the order-free description
+    that `build_candidates_is_order_free` proves for the model's sequential, mutating loop — the same five
+    clauses (`SpecPassDesc` = `PassDesc` read on the reference's state, with the reference's coordinate
+    key `skey`): per key the members of all groups with that key are added to the entry stored under it
+    (a new entry of the pass's kind when there was none); a protocluster added to an entry of another
+    kind that did not contain it becomes a promoted single, nothing else does; keys stay distinct. -/
+theorem reference_table_step_is_order_free (wrap : Option Int) (kind : Kind) (st st' : State)
+    (gs : List (List Proto)) (hn : (sKeys st).Nodup) (h : addGroups wrap kind st gs = .ok st') :
+    SpecPassDesc wrap kind st st' gs :=
+  addGroups_desc h hn
+
+/-- a step that succeeds: an interleaved group with the coordinates of a stored hybrid entry is merged
+    into it and its new member is promoted to a single -/
+example :
+    let p : Nat → Int → Int → Proto := fun i lo hi => ⟨i, .simple ⟨lo, hi, .fwd⟩, .simple ⟨lo, hi, .fwd⟩, [], ""⟩
+    (match addGroups none .interleaved ⟨[⟨[(10, 30)], .hybrid, [p 0 10 20, p 1 12 18]⟩], []⟩
+        [[p 0 10 20, p 2 15 30], [p 3 40 50, p 4 45 60]] with
+      | .ok st => st.entries.map (fun e => (e.key, e.members.map (·.id))) == [([(10, 30)], [0, 1, 2]), ([(40, 60)], [3, 4])]
+          && st.singles.map (·.id) == [2]
+      | .error _ => false) = true := by decide +kernel
+
 /-- Still not proved: equality with the *executable* `Spec.reference` (the correspondence compares every
     implementation output with it).  `formation_refines_reference_linear` gives the run stage by stage in
     the reference's own notions, and `reference_hybrid_classes_are_chain_classes` /
     `reference_overlap_groups_are_chain_classes` show that the class computations of the executable
     reference produce exactly those notions (item (1) of the earlier list, now proved).  What is still
     missing for the equality is
-    (2) that `Spec.addGroups` satisfies `PassDesc` (it is that statement read as a definition), the unit
+    (2) (`Spec.addGroups` satisfies the five clauses of `PassDesc`: `reference_table_step_is_order_free`, now
+        proved; open: that the reference's key `skey` and the model's `gkey` agree, i.e. `connect` does not
+        depend on the order of the members) the unit
         hypotheses of `reference_overlap_groups_are_chain_classes` for the reference's own units
         (`unitsOf`: entries have distinct keys and disjoint or nested members), and the unfolding of the
         monadic `reference` into its six stages,
